@@ -31,6 +31,9 @@ func run(c *hc.Ctx) {
 	if only("curved") {
 		regionCurved(c)
 	}
+	if only("offsetcurved") {
+		offsetCurved(c)
+	}
 }
 
 // ---------------------------------------------------------------------------------------------
@@ -316,7 +319,20 @@ func protocol(c *hc.Ctx) {
 	for it := 0; it < c.N; it++ {
 		hw := genHW(c)
 		var p *canvas.Path
-		switch c.Intn(5) {
+		switch c.Intn(7) {
+		case 5: // closed subpath of exactly one segment: the cubic is joined with itself
+			p, _ = genTeardrop(c)
+		case 6: // the same, among other subpaths / as a quadratic that returns to its start
+			p, _ = genTeardrop(c)
+			if c.Bool() {
+				p = p.Append(c.GenPath("LQC", 3, 1))
+			} else {
+				q := &canvas.Path{}
+				q.MoveTo(c.GenCoord(), c.GenCoord())
+				q.QuadTo(c.GenCoord(), c.GenCoord(), q.Pos().X, q.Pos().Y)
+				q.Close()
+				p = p.Append(q)
+			}
 		case 0:
 			p = canvas.Circle(float64(1 + c.Intn(5)))
 		case 1:
@@ -347,6 +363,9 @@ func protocol(c *hc.Ctx) {
 			c.Case(sb.String(), "~", out)
 			c.Distinct(sb.String())
 			c.Count(fmt.Sprintf("proto:general closed=%v strokeOpen=%v caps=%d", closed, strokeOpen, nc))
+			if closed && len(segs) == 1 {
+				c.Count(fmt.Sprintf("proto:general closed single segment joins=%d", nj))
+			}
 			if nj < len(segs)-1 || (closed && nj < len(segs)) {
 				c.Count("proto:general some-smooth-junction")
 			}
